@@ -4,6 +4,7 @@
 # /repo under /tmp (VERIF_REPO), its own evidence directory; /repo itself is not touched. Worktrees are removed at the end.
 W="$1"; LOG="$2"; shift 2
 cd /verif
+export VERIF_KEEP_BUILDS=60          # several trees are built and used side by side: no eviction while this runs
 : > "$LOG"
 ids=("$@")
 worker() {
@@ -32,4 +33,6 @@ worker() {
 for k in $(seq 0 $((W - 1))); do worker "$k" & done
 wait
 git -C /repo worktree prune
+# back to the usual number of cached builds
+ls -dt /verif/.cache/b-* 2>/dev/null | tail -n +5 | xargs -r rm -rf
 sort "$LOG" -o "$LOG"
